@@ -45,6 +45,16 @@ theorem response_status_code (st : Resp.State) :
       omega
     simp [this, h]
 
+/-- route.go `stringTrimSpaceCutset`: the router's Accept / Content-Type test trims blanks only -/
+theorem trim_space_cutset (c : Char) : stringTrimSpaceCutset c = Str.isSpaceOnly c := rfl
+
+/-- request.go `Request.SelectedRoutePath()`: the empty string when no route was selected (what a
+    stage behind a `replace` filter sees: `C01_selected_path_replace_witness`), the route's path
+    otherwise -/
+theorem selected_route_path (sel : Option Str) :
+    Request_SelectedRoutePath sel.isNone (sel.getD []) = sel.getD [] := by
+  cases sel <;> simp [Request_SelectedRoutePath]
+
 /-- which ordering is applied where, and by which algorithm: `sort.Sort` (insertion sort up to 12
     elements: stable) on the curly candidates, `sort.Sort(sort.Reverse(…))` on both JSR311 candidate
     lists; no other use of package sort on the request path (mime.go inserts by hand) -/
